@@ -843,9 +843,19 @@ func (x *Exec) builtin(st *State, call *ast.CallExpr, name string) []Term {
 		r := x.expr(st, call.Args[0])
 		for _, a := range call.Args[1:] {
 			v := x.expr(st, a)
-			if name == "min" {
+			switch {
+			case r.Sort.Kind == KStr: // strings: the order of the < operator (gs.lt)
+				x.u.ensureStrOrder()
+				if name == "min" {
+					r = tIte(app(sortBool, "gs.lt", v, r), v, r)
+				} else {
+					r = tIte(app(sortBool, "gs.lt", r, v), v, r)
+				}
+			case r.Sort.Kind != KInt:
+				x.unsupported(call, "%s on %s", name, r.Sort.Name)
+			case name == "min":
 				r = tIte(app(sortBool, "<=", r, v), r, v)
-			} else {
+			default:
 				r = tIte(app(sortBool, ">=", r, v), r, v)
 			}
 		}
